@@ -841,4 +841,23 @@ example :
     (run { srcs := [3], once := true } [.poll 0, .complete 0, .poll 0, .bread]).value = some (fetchFn [3]) := by
   decide
 
+/-- a `LocalResource`: every fetch waits for its tick task first (`t0` for fetch 0, spawned before the
+derived's own task; a tick task per later fetch); a result that arrives before the tick has fired is only
+consumed after it -/
+example :
+    readyList (run { srcs := [1], isLocal := true } []) = [.t0, .d] ∧
+    -- the derived's task polled first: waits for the tick; result arrives; still nothing to do until t0 fires
+    readyList (run { srcs := [1], isLocal := true } [.poll 1, .complete 0]) = [.t0] ∧
+    (run { srcs := [1], isLocal := true } [.poll 1, .complete 0]).value = none ∧
+    settled (run { srcs := [1], isLocal := true } [.poll 1, .complete 0, .poll 0, .poll 0]) = true ∧
+    (run { srcs := [1], isLocal := true } [.poll 1, .complete 0, .poll 0, .poll 0]).value = some (fetchFn [1]) ∧
+    -- a refetch spawns a new tick task
+    readyList (run { srcs := [1], isLocal := true } [.poll 1, .complete 0, .poll 0, .poll 0, .refetch, .poll 0])
+      = [.a 0] ∧
+    settled (run { srcs := [1], isLocal := true }
+      [.poll 1, .complete 0, .poll 0, .poll 0, .set 0 5, .poll 0, .poll 0, .poll 0, .complete 1, .poll 0]) = true ∧
+    (run { srcs := [1], isLocal := true }
+      [.poll 1, .complete 0, .poll 0, .poll 0, .set 0 5, .poll 0, .poll 0, .poll 0, .complete 1, .poll 0]).value
+      = some (fetchFn [5]) := by decide
+
 end Leptos.Async
